@@ -96,6 +96,45 @@ class FakeCF:
         return bad
 
 
+def period_value(ms):
+    """the period_in_ms argument of an event: an int, or ['f', a, b] = the Python float a/b (exactly), or
+    ['np', a, b] = the numpy.float64 a/b"""
+    if isinstance(ms, (list, tuple)):
+        v = ms[1] / ms[2]                 # exact: a/b is the as_integer_ratio of a float
+        if ms[0] == 'np':
+            import numpy
+            return numpy.float64(v)
+        return v
+    return ms
+
+
+def period_ratio(ms):
+    """(a, b) with period_in_ms = a/b exactly"""
+    if isinstance(ms, (list, tuple)):
+        return int(ms[1]), int(ms[2])
+    return int(ms), 1
+
+
+def float_spec(x, kind='f'):
+    a, b = float(x).as_integer_ratio()
+    return [kind, a, b]
+
+
+def _int_or_marker(v):
+    """integers as they are; anything else (a float period ...) as a marker that no model value equals"""
+    if isinstance(v, bool):
+        return int(v)
+    if isinstance(v, int):
+        return v
+    try:
+        import numpy
+        if isinstance(v, numpy.integer):
+            return int(v)
+    except ImportError:
+        pass
+    return -777777
+
+
 def exn_code(e):
     if isinstance(e, struct.error):
         return 6
@@ -225,7 +264,7 @@ class Impl:
         from cflib.crtp.crtpstack import CRTPPacket
         k = ev[0]
         if k == 'new':
-            cfg = LogConfig('cfg%d' % len(self.cfgs), ev[1])
+            cfg = LogConfig('cfg%d' % len(self.cfgs), period_value(ev[1]))
             self.cfgs.append(cfg)
             self._mk_cbs(len(self.cfgs) - 1, cfg)
             return
@@ -312,7 +351,7 @@ class Impl:
         out += [self._h(b) for b in lg.log_blocks]
         out.append(len(self.cfgs))
         for c in self.cfgs:
-            out += [c.period, c.id, 0 if c.cf is None else 1, int(bool(c.useV2)), int(c._added), int(c._started),
+            out += [_int_or_marker(c.period), c.id, 0 if c.cf is None else 1, int(bool(c.useV2)), int(c._added), int(c._started),
                     int(c.pending), int(c.valid), c.err_no, len(c.variables)]
             for v in c.variables:
                 out += [1 if v.is_toc_variable() else 0, name_id(v.name), v.fetch_as, v.stored_as, v.address]
@@ -334,7 +373,8 @@ def zl(xs):
 def coq_ev(ev, toc_order=None):
     k = ev[0]
     if k == 'new':
-        return 'ENew %s' % z(ev[1])
+        a, b = period_ratio(ev[1])
+        return 'ENew %s %s' % (z(a), z(b))
     if k == 'addvar':
         return 'EAddVar %d %s %s' % (ev[1], z(ev[2]), z(ev[3]))
     if k == 'addmem':
